@@ -7,6 +7,16 @@ ALL = ["C%02d" % i for i in range(1, 21)]
 
 # property id -> (level category, level text, level note, technique, design ref)
 CHECKS = {
+ "C11": ("exploration",
+         "Differential execution of both readers: generated list contents (every line-ending style, BOM, NUL, multi-byte characters on the 4 KiB buffer boundary, lines of 4094..10000 bytes, 1..4 lists with extreme int32 ids, IgnoreCosmetic on/off, a twin list with identical offsets) are scanned and compared with a line-by-line reference parse; every yielded index is retrieved cold and warm in random order from a String-backed and a File-backed storage, and engines built on both answer a request sample identically (quick 3000 storages / 2e8 bytes, thorough 1e5).",
+         "Reference parse calls rules.NewRule per line as the statement defines; scan completely, then retrieve; contents are sampled from a line pool.",
+         "runtime differential oracle (line-by-line reference parse; String vs File backing)",
+         "DESIGN.md section 4, C11"),
+ "C15": ("exploration",
+         "Differential execution: random lists of element-hiding rules and exceptions against 22 hostnames on every domain boundary and all 8 flag combinations, through CosmeticEngine.Match and Engine.GetCosmeticResult, compared per bucket with the reference the statement defines (CosmeticRule.Match over all rules minus same-selector exceptions) (quick 2e6, thorough 1e8 evaluations).",
+         "CosmeticRule.Match is taken as the definition of 'applies'; buckets are compared as sets; lists are sampled.",
+         "runtime differential oracle (linear reference over all cosmetic rules)",
+         "DESIGN.md section 4, C15"),
  "C10": ("exploration",
          "Grammar-based and mutation-based execution of the $dnsrewrite parser (quick 4.8e6, thorough 1.4e8 values): every accepted value is judged by a shape predicate written from the RRValue contract, by a consumer that type-asserts by record type, by a determinism check, and - where the documented grammar decides validity - by the generator's expectation (valid => expected content, malformed => error).",
          "The shape predicate is the trusted statement of the contract; expectations are asserted only for grammar-built values, mutated values are judged by shape alone; the value space is sampled.",
